@@ -425,6 +425,11 @@ class MapOverlap(ArrayExpr):
             x, int(window), None if min_count is None else int(min_count), axis, reducer, dtype
         )
 
+    def _requires_grid_preservation(self, dependency):
+        # Several inputs are overlapped one by one and then paired block by
+        # block (``map_blocks``); they were put on one grid at construction.
+        return len(self.arrays) > 1
+
     def _lower(self):
         """Expand to the full overlap pipeline.
 
